@@ -212,6 +212,88 @@ def run(ctx):
             raise AnalysisError("C18.RETURN", c.qualname, "cannot identify the instance map among %s" % sorted(prot))
         check_return_is_stored(ctx, "C18.RETURN", "C18.NOCACHE", f, c, prot, maps[0])
 
+    # ---- C18.ATOMIC: lookup and store of one key happen in ONE critical section -------------
+    from ..lock import LockFlow, lock_attr_names
+    n_at = 0
+    for c in owners:
+        f = c.methods["__call__"]
+        cfg = ctx.cfg(f)
+        flow = LockFlow(cfg, f, lock_attr_names(prog))
+        prot = derive_protected(prog, c)
+        maps = [a for a in prot if a.endswith("__instances")]
+        aliases = rules_lock.local_aliases(f, c.name, prot)
+        lookups, stores = [], []
+        for n in cfg.live_nodes():
+            for attr, kind, text in rules_lock.accesses(n, c.name, set(maps), aliases):
+                (stores if kind == "write" else lookups).append(n)
+        releases = [r for le in flow.locks for r in flow.release_nodes(le)]
+        for st in stores:
+            n_at += 1
+            doms = [g for g in lookups if g is not st and cfg.dominates([g], st)]
+            same_node = st in lookups or "setdefault" in rules_lock.stmt_text(st)
+            broken = None
+            for g in doms:
+                for r in releases:
+                    if r in cfg.reach([g]) and st in cfg.reach([r]):
+                        broken = (g, r)
+            ok = (bool(doms) or same_node) and broken is None
+            ctx.ob("C18.ATOMIC", f, "the instance-map lookup and the store of a new instance for the same key happen without "
+                   "releasing the lock in between (check-then-act is atomic)", ok,
+                   construct="store: %s" % rules_lock.stmt_text(st),
+                   detail="" if ok else ("lock released at L%d between lookup L%d and store L%d: two threads can both miss and both store" % (
+                       broken[1].lineno, broken[0].lineno, st.lineno) if broken else "no dominating lookup of the map before the store"),
+                   analysis="LOCK typestate + CFG path query")
+    ctx.floor("C18.ATOMIC", n_at, 3, "instance-map stores in factory __call__")
+
+    # ---- C18.WEAKONLY: only the strong (LRU) cache evicts; the weak instance map is never pruned by hand ----
+    for c in owners:
+        prot = derive_protected(prog, c)
+        maps = set(a for a in prot if a.endswith("__instances"))
+        for name, f in sorted(c.methods.items()):
+            if name in ("__init__", "cache_clear"):
+                continue
+            bad = []
+            for x in walk_local(f.node):
+                if isinstance(x, ast.Call) and isinstance(x.func, ast.Attribute) and isinstance(x.func.value, ast.Attribute) \
+                        and mangle(c.name, x.func.value.attr) in maps and x.func.attr in ("pop", "popitem", "clear", "__delitem__"):
+                    bad.append(src(x))
+                if isinstance(x, ast.Delete):
+                    for t in x.targets:
+                        if isinstance(t, ast.Subscript) and isinstance(t.value, ast.Attribute) and mangle(c.name, t.value.attr) in maps:
+                            bad.append(src(x))
+            if name == "__call__" or bad:
+                ctx.ob("C18.WEAKONLY", f, "entries leave the weak instance map only when the zone is garbage collected "
+                       "(eviction applies to the strong cache alone), so a still-referenced zone is returned again", not bad,
+                       construct="%s: removals from the instance map" % name, detail="; ".join(bad))
+
+    # ---- C18.REDUCE: pickling/copying reproduces the zone from unmodified state ----------------------
+    for q in ZONE_CLASSES + ["tz.tz.tzstr", "tz.tz._tzicalvtz", "zoneinfo.tzfile"]:
+        c = prog.cls(q, "C18.REDUCE")
+        for rname in ("__reduce__", "__reduce_ex__"):
+            r = prog.class_lookup(c, rname)
+            if r is None:
+                continue
+            if not isinstance(r[0], FuncInfo):
+                ok = src(r[0]) == "object.__reduce__"
+                ctx.ob("C18.REDUCE", c, "%s is object.__reduce__ (state-preserving default)" % rname, ok, construct="%s.%s = %s" % (c.name, rname, src(r[0])))
+                continue
+            f = r[0]
+            rets = [x for x in walk_local(f.node) if isinstance(x, ast.Return)]
+            for rt in rets:
+                v = rt.value
+                if isinstance(v, ast.Call):       # delegation, e.g. self.__reduce_ex__(None)
+                    ctx.ob("C18.REDUCE", f, "%s delegates to the sibling reducer" % rname, src(v.func) in ("self.__reduce_ex__", "self.__reduce__"),
+                           construct="%s.%s: return %s" % (c.name, rname, src(v)))
+                    continue
+                if not isinstance(v, ast.Tuple) or len(v.elts) < 2 or not isinstance(v.elts[1], ast.Tuple):
+                    ctx.ob("C18.REDUCE", f, "%s returns (callable, args[, state])" % rname, False, construct="%s.%s: return %s" % (c.name, rname, src(v)))
+                    continue
+                derived = [src(a) for a in v.elts[1].elts if not isinstance(a, (ast.Attribute, ast.Constant, ast.Name))]
+                ctx.ob("C18.REDUCE", f, "the reconstruction arguments are stored attributes passed through unchanged "
+                       "(no conversion that could lose information)", not derived,
+                       construct="%s.%s: return %s" % (c.name, rname, src(v)), detail="derived arguments: %s" % derived if derived else "",
+                       analysis="FIELD pass-through")
+
     # ---- C18.SINGLETON ------------------------------------------------------------------
     single = prog.cls("tz._factories._TzSingleton", "C18.SINGLETON")
     call = single.methods.get("__call__")
